@@ -692,6 +692,11 @@ def unwrap_elem(ex, st, seq, v, node):
             return c
     if seq.tag == 'opaque':
         return ex.fresh_int('elem')
+    if seq.tag == 'real':
+        v = st.deref(v)
+        if isinstance(v, VArr) and v.tag == 'pt':
+            return to_real(v.t)
+        return to_real(ex.need_num(st, v, node))
     raise Unsupported(f'store into sequence of kind {seq.tag}')
 
 
